@@ -11,6 +11,7 @@ The interpreter knows nothing about capy's implementation; it implements two's-c
 
 Type expressions            ("prim", name) ("tp", T) ("named", name, home) ("lnamed", name) ("arr", len, elem) ("ptr", mut, t)
                             ("slice", t) ("anon", ((field, type), ...))        len = ("n", k) | ("cp", N)
+                            ("tgcall", (name, home), (arg, ...)) the type returned by a (generic) type-generating function, written `comptime name(args)`
 Expressions                 ("lit", v, type) bare integer literal standing where `type` is expected; ("flit", v) ("blit", b) ("chlit", c)
                             ("var", x) ("cpv", N) ("bin", op, a, b) ("not", a) ("cast", type, e) ("idx", e, i) ("fld", e, f) ("len", e)
                             ("deref", e) ("addr", mut, lvalue) ("slit", type, ((f, e), ...)) ("anonlit", ((f, e), ...), type) ("alit", elemtype, (e, ...))
@@ -93,6 +94,9 @@ class Emit:
             return "[]" + self.ty(t[1])
         if k == "anon":
             return "struct { " + ", ".join(f"{f}: {self.ty(ft)}" for f, ft in t[1]) + " }"
+        if k == "tgcall":
+            args = [self.ty(a[1]) if a[0] == "T" else self.carg(a[1]) for a in t[2]]
+            return f"comptime {self.q(t[1][0], t[1][1])}(" + ", ".join(args) + ")"
         raise AssertionError(t)
 
     def clen(self, ln):
@@ -123,8 +127,10 @@ class Emit:
             return e[1]
         if k == "ctb":
             return "comptime { " + e[1] + " }"
+        if k == "tyval":
+            return self.ty(e[1])
         if k == "ifx":
-            return f"if {self.ex(e[1])} {{ {self.ex(e[2])} }} else {{ {self.ex(e[3])} }}"
+            return f"if {self.cond(e[1])} {{ {self.ex(e[2])} }} else {{ {self.ex(e[3])} }}"
         if k == "gconst":
             return self.q(e[1], e[2])
         if k == "bin":
@@ -156,6 +162,10 @@ class Emit:
             return f"{self.q(e[1][0], e[1][1])}(" + ", ".join(args) + ")"
         raise AssertionError(e)
 
+    def cond(self, e):
+        t = self.ex(e)
+        return t[1:-1] if e[0] in ("bin", "not") else t
+
     TRACE = {"i64": ("vr_i64", "i64"), "u64": ("vr_u64", "u64"), "f64": ("vr_f64bits", "f64"), "bool": ("vr_bool", None)}
 
     def stmts(self, ss, ind):
@@ -170,11 +180,11 @@ class Emit:
             elif k == "assign":
                 out.append(f"{pad}{self.ex(s[1])} = {self.ex(s[2])};")
             elif k == "while":
-                out.append(f"{pad}while {self.ex(s[1])} {{")
+                out.append(f"{pad}while {self.cond(s[1])} {{")
                 out += self.stmts(s[2], ind + 1)
                 out.append(f"{pad}}}")
             elif k == "if":
-                out.append(f"{pad}if {self.ex(s[1])} {{")
+                out.append(f"{pad}if {self.cond(s[1])} {{")
                 out += self.stmts(s[2], ind + 1)
                 if s[3]:
                     out.append(f"{pad}}} else {{")
@@ -258,6 +268,17 @@ def subst_type(t, b):
         return ("slice", subst_type(t[1], b))
     if k == "anon":
         return ("anon", tuple((f, subst_type(ft, b)) for f, ft in t[1]))
+    if k == "tgcall":
+        args = []
+        for a in t[2]:
+            if a[0] == "T":
+                args.append(("T", subst_type(a[1], b)))
+            else:
+                c = a[1]
+                if c[0] == "cp" and c[1] in b:
+                    c = ("n", b[c[1]][1])
+                args.append(("V", c))
+        return ("tgcall", t[1], tuple(args))
     return t
 
 
@@ -272,6 +293,8 @@ def subst_expr(e, b):
         return e
     if k == "ctb":
         return e
+    if k == "tyval":
+        return ("tyval", subst_type(e[1], b))
     if k == "ifx":
         return ("ifx", subst_expr(e[1], b), subst_expr(e[2], b), subst_expr(e[3], b))
     if k == "lit":
@@ -352,6 +375,10 @@ def rehome_type(t, frm, to):
 def subst_func(f, binding, new_name, new_home):
     """binding: comptime parameter name -> ("T", closed type) | ("V", value, declared type).
     -> closed Func (comptime parameters removed) living in file new_home"""
+    binding = dict(binding)
+    for n, k, t in f.params:          # the declared type of a comptime value parameter may mention an earlier type parameter (`comptime D: T`)
+        if k == "cv" and n in binding:
+            binding[n] = ("V", binding[n][1], subst_type(t, binding))
     params = [(n, k, subst_type(t, binding)) for n, k, t in f.params if k not in ("ct", "cv")]
     g = Func(new_name, new_home, params, subst_type(f.ret, binding) if f.ret is not None else None,
              subst_stmts(f.body, binding), subst_expr(f.tail, binding) if f.tail is not None else None, f.height, dict(f.meta))
@@ -425,6 +452,11 @@ class Interp:
             return ("slice", self.resolve(t[1], ltypes))
         if k == "anon":
             return ("struct", tuple((f, self.resolve(ft, ltypes)) for f, ft in t[1]))
+        if k == "tgcall":
+            g = self.instantiate(self.w.funcs[(t[1][1], t[1][0])], t[2])
+            if g.tail is None or g.tail[0] != "tyval":
+                raise ModelError("not a type generator")
+            return self.resolve(g.tail[1], {})
         raise ModelError(f"open type {t}")
 
     def default(self, ct):
@@ -445,7 +477,7 @@ class Interp:
         """(size, align) under natural C-like layout"""
         k = ct[0]
         if k == "int":
-            return ct[1] // 8, min(ct[1] // 8, 8) if ct[1] <= 64 else 16
+            return ct[1] // 8, min(ct[1] // 8, 8)          # 128-bit integers are 8-aligned in capy (observed; layouts are C17's subject)
         if k == "float":
             return ct[1] // 8, ct[1] // 8
         if k in ("bool", "char"):
@@ -655,7 +687,7 @@ class Interp:
                 keyparts.append(repr(a[1]))
             elif k == "cv":
                 v = self.carg_value(a[1])
-                b[n] = ("V", v, t)
+                b[n] = ("V", v, subst_type(t, b))
                 keyparts.append(str(v))
         key = (f.home, f.name, tuple(keyparts))
         if key not in self.inst_cache:
